@@ -49,8 +49,31 @@ def extract(repo):
             out[f"{name}_FRAG_LOG2_{q}"] = log2_exact(v, f"{name}_FRAGMENT_SIZE")
     if not re.search(r"const BC3_FRAGMENT_SIZE: PreferredFragmentSize\s*=\s*BC1_FRAGMENT_SIZE\.combine\(BC4_FRAGMENT_SIZE\);", bc):
         raise KeyError("encode/bc.rs: BC3_FRAGMENT_SIZE = BC1.combine(BC4)")
-    extract_encoder_loops(rd, out, bc)
+    # The staging-buffer sizes and report cadences of the ENCODER loops are found by function-level patterns; a refactor
+    # that computes one of them from named constants, or moves it, is not recognised. Unlike the constants above these
+    # only parameterise the trapping mirrors of C15 (the write totals are tied by C10 / C15 / C14 on every run), so an
+    # unrecognised form falls back, for this group only, to the values generated last (a pinned model, as before these
+    # constants were extracted) and says so on stderr — check.py records the note in the evidence.
+    try:
+        extract_encoder_loops(rd, out, bc)
+    except (KeyError, ValueError) as e:
+        prev = {}
+        here = os.path.join(os.path.dirname(os.path.dirname(os.path.abspath(__file__))), "lean", "DdsModel", "DdsModel", "SrcConsts.lean")
+        if os.path.exists(here):
+            prev = {m.group(1): int(m.group(2)) for m in re.finditer(r"^def (\w+) : Nat := (\d+)", open(here).read(), flags=re.M)}
+        missing = [k for k in ENCODER_LOOP_NAMES if k not in prev]
+        if missing:
+            raise KeyError(f"{e}; no previous value for {missing[0]}")
+        for k in ENCODER_LOOP_NAMES:
+            out[k] = prev[k]
+        sys.stderr.write(f"FALLBACK encoder-loop constants: {e}\n")
     return out
+
+ENCODER_LOOP_NAMES = ["UNC_REPORT_FREQUENCY", "UNIVERSAL_BUFFER_PIXELS", "DITHER_BUFFER_PIXELS", "DITHER_ENCODED_ELEM_BYTES",
+                      "DITHER_ERROR_PADDING", "UNTYPED_BUFFER_BYTES", "COPY_BUFFER_BYTES", "SUBSAMPLE_BUFFER_PIXELS",
+                      "SUBSAMPLE_ENCODED_BLOCKS", "SUBSAMPLE_REPORT_FREQUENCY", "BIPLANAR_REPORT_PIXELS",
+                      "BC_REPORT_FREQUENCY_FAST", "BC_REPORT_FREQUENCY_NORMAL", "BC_REPORT_FREQUENCY_HIGH",
+                      "BC_REPORT_FREQUENCY_UNREASONABLE"]
 
 PRIM_SIZE = {"u8": 1, "u16": 2, "u32": 4, "u64": 8, "f32": 4}
 
